@@ -43,7 +43,8 @@ import (
 type ID struct{ T, V string }
 
 type Case struct {
-	Kind   string // fin | val
+	Kind   string // fin | val | ord
+	En     string `json:",omitempty"` // ord: enabled challenge types of the provisioner (letters h d t a)
 	IDs    []ID
 	FPs    []int // per identifier: 0 no fingerprint, 1 key A, 2 key B
 	Key    int   // CSR key: 1 = A, 2 = B
@@ -78,6 +79,9 @@ func setup() error {
 	var err error
 	ca, err = fixture.New(fixture.Opts{NoDB: true, Provisioners: provisioner.List{
 		&provisioner.ACME{Type: "ACME", Name: "acme"},
+		&provisioner.ACME{Type: "ACME", Name: "acme-all", Challenges: []provisioner.ACMEChallenge{
+			provisioner.HTTP_01, provisioner.DNS_01, provisioner.TLS_ALPN_01, provisioner.DEVICE_ATTEST_01}},
+		&provisioner.ACME{Type: "ACME", Name: "acme-dns", Challenges: []provisioner.ACMEChallenge{provisioner.DNS_01}},
 	}})
 	if err != nil {
 		return err
@@ -361,6 +365,8 @@ func (k *Case) emit(o *c.Out) {
 	js, _ := json.Marshal(k)
 	tail := " case=x" + hex.EncodeToString(js)
 	switch k.Kind {
+	case "ord":
+		o.Case("kind=ord ids="+idsField(k.IDs)+" en="+k.En+tail, k.runOrder())
 	case "val":
 		line := "kind=val ids=" + idsField(k.IDs) + tail
 		out := func() (out string) {
@@ -652,6 +658,8 @@ func genMalformed(r *c.Rng) *Case {
 
 func genCase(r *c.Rng) *Case {
 	switch r.Intn(10) {
+	case 3:
+		return genOrd(r)
 	case 0:
 		return genMalformed(r)
 	case 1:
@@ -716,12 +724,22 @@ func main() {
 	n := flag.Int("n", 2000, "number of generated cases")
 	out := flag.String("out", "", "output file (input<TAB>impl)")
 	replay := flag.String("replay", "", "file of model input lines (case=… field) to re-run instead of generating")
+	probeWire := flag.Bool("probe-wire-uri", false, "not a check stage: call (*Order).sans on a Wire order whose handle and client id are the same URI, with a CSR of two distinct URIs (C18 material)")
 	flag.Parse()
+	if *probeWire {
+		fmt.Println(probeWireURI())
+		return
+	}
 	if err := setup(); err != nil {
 		fmt.Fprintln(os.Stderr, "setup:", err)
 		os.Exit(2)
 	}
 	defer ca.Close()
+	if err := setupOrderWorld(); err != nil {
+		fmt.Fprintln(os.Stderr, "setup:", err)
+		os.Exit(2)
+	}
+	defer closeOrderWorld()
 	o, err := c.NewOut(*out)
 	if err != nil {
 		fmt.Fprintln(os.Stderr, err)
@@ -757,8 +775,31 @@ func main() {
 	for _, k := range corner() {
 		k.emit(o)
 	}
+	for _, k := range cornerOrd() {
+		k.emit(o)
+	}
 	r := c.NewRng(c.Seed())
 	for i := 0; i < *n; i++ {
 		genCase(r.Fork()).emit(o)
 	}
+}
+
+// probeWireURI: Order.sans indexes orderURIs (de-duplicated) with the index of the CSR's
+// de-duplicated URIs after comparing only the lengths before de-duplication.
+func probeWireURI() (out string) {
+	defer func() {
+		if r := recover(); r != nil {
+			out = fmt.Sprintf("panic: %v", r)
+		}
+	}()
+	same := "wireapp://u!d@wire.com"
+	user := `{"name":"n","domain":"wire.com","handle":"` + same + `"}`
+	dev := `{"name":"n","domain":"wire.com","client-id":"` + same + `","handle":"` + same + `"}`
+	nor := &acmeapi.NewOrderRequest{Identifiers: []acme.Identifier{{Type: acme.WireUser, Value: user}, {Type: acme.WireDevice, Value: dev}}}
+	verr := nor.Validate()
+	o := &acme.Order{ID: "o", Identifiers: nor.Identifiers}
+	u1, _ := url.Parse(same)
+	u2, _ := url.Parse("wireapp://zzz")
+	_, err := o.VerifSans(&x509.CertificateRequest{URIs: []*url.URL{u1, u2}})
+	return fmt.Sprintf("NewOrderRequest.Validate: %v; sans: no panic, err=%v", verr, err)
 }
